@@ -32,9 +32,9 @@ func main() {
 				}
 				return false
 			}
-			nv := x.Run.Count(350, 20000)
-			nm := x.Run.Count(900, 100000)
-			na := x.Run.Count(250, 20000)
+			nv := x.Run.Count(350, 15000)
+			nm := x.Run.Count(900, 50000)
+			na := x.Run.Count(250, 10000)
 			x.RandomStreams(8, nv, nm, nil, []string{
 				"srcia", "dstia", "ingress", "srchost", "dsthost", "currhf", "srcia", "dstia", "ingress",
 				"currinf", "consingress", "consegress", "l4", "peerflag", "consdir", "paylen", "mac", "expired"})
